@@ -327,9 +327,15 @@ class Interp:
                 for i in seq:
                     if not self.for_body(s, i, env):
                         break
-            else:  # array: iterates by index, sees pushes during iteration (ArrayIterator)
+            else:
+                # the prelude's ArrayIterator: stop when i == len, otherwise index (so an array that
+                # shrinks below the cursor during iteration fails with out-of-bounds)
                 i = 0
-                while i < len(it.xs):
+                while True:
+                    if i == len(it.xs):
+                        break
+                    if i > len(it.xs):
+                        raise AbraError("oob")
                     if not self.for_body(s, it.xs[i], env):
                         break
                     i += 1
@@ -363,12 +369,14 @@ class Interp:
         tgt, op, e = s[1], s[2], s[3]
         if tgt[0] == "var":
             cell = self.lookup(env, tgt[2])
+            old = cell[0]
             v = self.expr(e, env)
-            cell[0] = v if op == "=" else arith(op[0], cell[0], v)
+            cell[0] = v if op == "=" else arith(op[0], old, v)
         elif tgt[0] == "field":
             obj = self.expr(tgt[2], env)
+            old = obj.fs[tgt[3]]
             v = self.expr(e, env)
-            obj.fs[tgt[3]] = v if op == "=" else arith(op[0], obj.fs[tgt[3]], v)
+            obj.fs[tgt[3]] = v if op == "=" else arith(op[0], old, v)
         elif tgt[0] == "index":
             arr = self.expr(tgt[2], env)
             idx = self.expr(tgt[3], env)
@@ -821,7 +829,7 @@ class Gen:
     def __init__(self, rng, cfg=None):
         self.r = rng
         self.cfg = dict(size=40, depth=4, jumps_in_operands=True, lambdas=True, structs=True, enums=True,
-                        errors=True, nested_lambdas=False, trymode=True)
+                        errors=True, nested_lambdas=True, trymode=True)
         if cfg:
             self.cfg.update(cfg)
         self.structs = {}
@@ -1173,8 +1181,75 @@ class Gen:
     def match_expr(self, ty, d):
         r = self.r
         # scrutinee: int / bool / tuple / enum / option / result variable or expression
-        choice = r.below(6)
+        choice = r.below(9)
         arms = []
+        if choice == 6:
+            # tuples with void components; an arm that fails on an earlier component first
+            shape = r.choice([(INT, VOID), (BOOL, VOID), (INT, STR, VOID), (VOID, INT), (INT, VOID, BOOL)])
+            t = ("tuple", shape)
+            scrut = self.expr(t, d - 1)
+            def lit_or_wild(ty, force_lit=False):
+                if ty == VOID:
+                    return r.choice([("pwild",), ("plit", None)])
+                if ty == INT:
+                    return ("plit", r.range(0, 3)) if force_lit or r.chance(60) else ("pwild",)
+                if ty == BOOL:
+                    return ("plit", r.chance(50)) if force_lit or r.chance(60) else ("pwild",)
+                return ("plit", r.choice(["", "a", "xyz"])) if force_lit or r.chance(50) else ("pwild",)
+            seen_pats = set()
+            for _ in range(r.range(1, 3)):
+                ps = [lit_or_wild(x, force_lit=(i == 0 or x != VOID and r.chance(30))) for i, x in enumerate(shape)]
+                key = repr(ps)
+                if key in seen_pats or all(p[0] == "pwild" or p == ("plit", None) for p in ps):
+                    continue
+                seen_pats.add(key)
+                arms.append((("ptuple", ps), self.arm_body(ty, d, [])))
+            binds, ps = [], []
+            for x in shape:
+                n = self.fresh("m")
+                binds.append((n, x))
+                ps.append(("pbind", n))
+            arms.append((("ptuple", ps), self.arm_body(ty, d, binds)))
+            # drop arms made redundant by an earlier identical-or-more-general arm
+            arms = self.dedupe_arms(arms)
+            self.features.add("match-tuple-void")
+            return ("match", ty, scrut, arms)
+        if choice == 7 and self.structs:
+            sn = r.choice(list(self.structs))
+            fields = self.structs[sn]
+            if any(ft in (INT, BOOL, STR) for _f, ft in fields):
+                t = ("struct", sn)
+                scrut = self.expr(t, d - 1)
+                named = r.chance(50)
+                order = list(range(len(fields)))
+                if named:
+                    r.shuffle(order)
+                for _ in range(r.range(1, 2)):
+                    ps = []
+                    for f, ft in fields:
+                        if ft == INT and r.chance(70):
+                            ps.append((f, ("plit", r.range(0, 3))))
+                        elif ft == BOOL and r.chance(70):
+                            ps.append((f, ("plit", r.chance(50))))
+                        elif ft == STR and r.chance(60):
+                            ps.append((f, ("plit", r.choice(["", "a"]))))
+                        else:
+                            ps.append((f, ("pwild",)))
+                    if all(q[0] == "pwild" for _f, q in ps):
+                        continue
+                    arms.append((("pstruct", sn, [ps[i] for i in order] if named else ps, named), self.arm_body(ty, d, [])))
+                binds, ps = [], []
+                for f, ft in fields:
+                    n = self.fresh("m")
+                    binds.append((n, ft))
+                    ps.append((f, ("pbind", n)))
+                arms.append((("pstruct", sn, [ps[i] for i in order] if named else ps, named), self.arm_body(ty, d, binds)))
+                arms = self.dedupe_arms(arms)
+                self.features.add("match-struct")
+                return ("match", ty, scrut, arms)
+            choice = 0
+        if choice >= 6:
+            choice = r.below(6)
         if choice == 0:
             scrut = self.expr(INT, d - 1)
             lits = r.sample(range(0, 6), r.range(1, 3))
@@ -1236,6 +1311,29 @@ class Gen:
                     (("ptuple", [("pbind", n2), ("pwild",)]), self.arm_body(ty, d, [(n2, INT)]))]
             self.features.add("match-tuple")
         return ("match", ty, scrut, arms)
+
+    def dedupe_arms(self, arms):
+        """remove arms that an earlier arm already covers (a redundant arm is a compile error)"""
+        def covers(p, q):
+            # does pattern p match everything q matches? (conservative, structural)
+            if p[0] in ("pwild", "pbind"):
+                return True
+            if q[0] in ("pwild", "pbind"):
+                return False
+            if p[0] == "plit" and q[0] == "plit":
+                return p[1] == q[1] and type(p[1]) == type(q[1])
+            if p[0] == "ptuple" and q[0] == "ptuple":
+                return all(covers(a, b) for a, b in zip(p[1], q[1]))
+            if p[0] == "pstruct" and q[0] == "pstruct":
+                dp, dq = dict(p[2]), dict(q[2])
+                return all(covers(dp[f], dq[f]) for f in dp)
+            return False
+        out = []
+        for pat, body in arms:
+            if any(covers(p2, pat) for p2, _b in out):
+                continue
+            out.append((pat, body))
+        return out
 
     def arm_body(self, ty, d, binds):
         self.push()
@@ -1400,6 +1498,9 @@ class Gen:
         op = "="
         if vt == INT and r.chance(50):
             op = r.choice(["+=", "-=", "*=", "/=", "%="])
+            if c[0] == "index" and tgt[3][0] not in ("lit", "var"):
+                ivs = self.vars_of(INT)
+                tgt = ("index", c[2][1], tgt[2], ("var", INT, r.choice(ivs)) if ivs and r.chance(50) else ("lit", INT, r.range(0, 2)))
         e = self.expr(vt, d - 1)
         if op in ("/=", "%=") and not (self.cfg["errors"] and r.chance(20)):
             e = ("lit", INT, r.range(1, 5))
